@@ -130,6 +130,8 @@ def impl_lineage(job):
             sp = LineageVolumeSplitter(M, options=opts, partition_noise=0.0)
             M.create_volume_rule("linear", {"growth_rate": 0.5})
             M.create_division_rule(it["div"][0], dict(it["div"][1]), sp)
+            if it.get("death"):
+                M.create_death_rule(it["death"][0], dict(it["death"][1]))
             M.py_initialize()
             dt = 0.25
             tp = np.arange(it["nt"]) * dt
@@ -212,7 +214,9 @@ def run(tier):
         vmode = VMODES[(i // 7) % 3]
         if div[0] == "volume" and vmode == "duplicate":
             vmode = "perfect"      # a duplicated volume is already above a volume threshold: bioscrape refuses ("dividing too fast")
-        items.append({"id": i + 1, "rx": i % len(REACTIONS), "div": div, "modes": MODESETS[(i // 3) % 4],
+        death = [None, None, ("species", {"specie": "S1", "threshold": 0.5, "comp": "<"}),
+                 ("species", {"specie": "S1", "threshold": 5.5, "comp": ">"})][(i // 2) % 4]
+        items.append({"id": i + 1, "death": death, "rx": i % len(REACTIONS), "div": div, "modes": MODESETS[(i // 3) % 4],
                       "vmode": vmode, "x0": [(3 * i + seed) % 7, (5 * i) % 4, (i // 2) % 3], "nt": 21 + 4 * (i % 3),
                       "seed": seed * 104729 + i + 1, "safe": bool(i % 2)})
     tres = pool.run_jobs("c19", "impl_lineage", [{"items": ch} for ch in pool.chunks(items, 20)])
@@ -229,7 +233,7 @@ def run(tier):
             elif o["bad"]:
                 v.violation("lineage:projection:%s" % o["bad"].split(":")[0], o["bad"], {"item": it})
             else:
-                lins.append({"id": o["id"], "ns": 3, "modes": it["modes"], "vmode": it["vmode"], "nt": it["nt"], "may_die": False, "sch": o["sch"]})
+                lins.append({"id": o["id"], "ns": 3, "modes": it["modes"], "vmode": it["vmode"], "nt": it["nt"], "may_die": bool(it.get("death")), "sch": o["sch"]})
     verdicts = {}
     tstates = 0
     with cf.ThreadPoolExecutor(max_workers=6) as ex:
@@ -261,7 +265,7 @@ def run(tier):
     common.write_evidence(PROP, tier, cov, time.time() - t0, len(v.alarms) + sum(v.known_hit.values()),
                           assumptions=["Binomial(n, p) is decided by exact counting over the uniform grid (spec) plus exact replay of the per-molecule Bernoulli draws (code); A-RNG for the stream itself",
                                        "lineage runs use partition noise 0 and a linear growth rule with dyadic increments so that reported volumes are exact rationals",
-                                       "death rules/events are not generated in the lineage runs (completeness is then demanded of every cell without daughters)"])
+                                       "half of the lineage runs have a species death rule (completeness is demanded only where no cell can die); division/death events and custom splitter functions are not generated"])
     return rc
 
 
@@ -278,7 +282,7 @@ def replay(path):
             print(json.dumps(o)[:1500])
             bad = True
         else:
-            L = {"id": o["id"], "ns": 3, "modes": it["modes"], "vmode": it["vmode"], "nt": it["nt"], "may_die": False, "sch": o["sch"]}
+            L = {"id": o["id"], "ns": 3, "modes": it["modes"], "vmode": it["vmode"], "nt": it["nt"], "may_die": bool(it.get("death")), "sch": o["sch"]}
             vd, _ = validate_lineages([L])
             print(json.dumps(vd, indent=1))
             bad = any(x["verdict"] != "accepted" for x in vd.values())
